@@ -2,6 +2,7 @@ import GasolVerif.Concrete
 import GasolVerif.Show
 import GasolVerif.Models.FormulaIO
 import GasolVerif.Models.Cost
+import GasolVerif.Models.CostAcc
 import GasolVerif.Models.Asm
 import GasolVerif.Models.Spec
 import GasolVerif.Models.SpecSem
@@ -44,7 +45,7 @@ def handle (line : String) : String :=
   | ["PYEQ", f, g, py] => Formula.handlePyEq f g py
   | ["COST", p0, b] =>
     match parseBlock? b with
-    | some B => let c := Cost.costs (p0 == "1") B; s!"{c.gas} {c.bytes} {c.len}"
+    | some B => let c := Cost.costs (p0 == "1") B; s!"{c.gas} {c.bytes} {c.len} {Cost.gasAcc (p0 == "1") B}"
     | none => "error:parse"
   | ["ACCEPT", crit, p0, b₁, b₂] =>
     match parseBlock? b₁, parseBlock? b₂ with
